@@ -76,7 +76,7 @@ var profiles = map[string]Profile{
 	"C05": {Prop: "C05", Checks: []string{"c05", "c12"}, Searches: [2]int{5, 10}, Stalls: true, MaxBaseNs: 50000, OptionSwarm: true,
 		W: [8]int{4, 4, 4, 3, 6, 4, 1, 0}, MidReady: 5, Bursts: 15, EarlyStop: 45, ConfigSwarm: true, Terminal: 4, NewGame: 5},
 	"C13": {Prop: "C13", Checks: []string{"c13", "c05"}, Searches: [2]int{3, 7}, Stalls: false, MaxBaseNs: 10000, OptionSwarm: false,
-		W: [8]int{4, 4, 8, 0, 0, 0, 0, 3}, MidReady: 0, Bursts: 0, EarlyStop: 0, Terminal: 3, NewGame: 5},
+		W: [8]int{4, 4, 8, 5, 0, 0, 0, 3}, MidReady: 0, Bursts: 0, EarlyStop: 0, Terminal: 3, NewGame: 5},
 	"C14": {Prop: "C14", Checks: []string{"c12", "c05"}, Searches: [2]int{4, 9}, Stalls: true, MaxBaseNs: 30000, OptionSwarm: false,
 		W: [8]int{2, 2, 5, 5, 4, 5, 0, 0}, MidReady: 30, Bursts: 40, EarlyStop: 35, Terminal: 5, NewGame: 10},
 	"C07": {Prop: "C07", Checks: []string{"c05"}, Searches: [2]int{4, 8}, Stalls: false, MaxBaseNs: 8000, OptionSwarm: true,
@@ -291,6 +291,12 @@ func GenUciSession(prop string, seed uint64) *Scenario {
 		return v
 	}
 	for s := 0; s < n; s++ {
+		if prop == "C14" && rng.Intn(100) < 12 {
+			// the handler's perft command runs in its own goroutine and is ended by stop
+			add(firstGap, "send", fmt.Sprintf("perft %d", rng.Range(1, 3)))
+			add(rng.LogRange(1, 3000), "send", "stop")
+			firstGap = int64(rng.Range(1, 300))
+		}
 		if s > 0 && rng.Intn(100) < pf.NewGame {
 			add(gapAfterResult(rng), "send", "ucinewgame")
 			firstGap = int64(rng.Range(0, 300))
